@@ -184,3 +184,22 @@ def norm_lines(lines, drop_empty=True):
     if drop_empty:
         out = [x for x in out if x]
     return out
+
+
+def share_layouts(cs):
+    """Make equal Layout objects of a caption set one shared object (an API user positions
+    several captions / nodes with the same Layout instance; readers create one per element)."""
+    pool = {}
+
+    def one(L):
+        if L is None:
+            return None
+        return pool.setdefault(L, L)
+    cs.layout_info = one(cs.layout_info)
+    for lang in cs.get_languages():
+        cs.set_layout_info(lang, one(cs.get_layout_info(lang)))
+        for c in cs.get_captions(lang):
+            c.layout_info = one(c.layout_info)
+            for n in c.nodes:
+                n.layout_info = one(n.layout_info)
+    return len(pool)
